@@ -24,7 +24,9 @@ pub fn pe_dev(a: &PhaseEquilibrium<Model, 2>, b: &PhaseEquilibrium<Model, 2>) ->
     for (x, y) in [(a.vapor(), b.vapor()), (a.liquid(), b.liquid())] {
         worst = worst.max((x.temperature.to_reduced() / y.temperature.to_reduced() - 1.0).abs());
         let (px, py) = (x.pressure(Contributions::Total).to_reduced(), y.pressure(Contributions::Total).to_reduced());
-        worst = worst.max(((px - py).abs() - 1e-11).max(0.0) / px.abs().max(py.abs()));
+        // each phase is a density iteration with an absolute pressure tolerance; in a stiff liquid
+        // at p ~ 1e-5 two converged solves differ by ~1e-11 in p
+        worst = worst.max(((px - py).abs() - 1e-10).max(0.0) / px.abs().max(py.abs()));
         worst = worst.max((x.density.to_reduced() / y.density.to_reduced() - 1.0).abs());
         for (u, v) in x.molefracs.iter().zip(y.molefracs.iter()) {
             worst = worst.max((u - v).abs());
@@ -41,6 +43,15 @@ pub fn near_trivial(a: &PhaseEquilibrium<Model, 2>) -> bool {
         .iter()
         .zip(a.liquid().partial_density.to_reduced().iter())
         .all(|(x, y)| (x / y - 1.0).abs() < 1e-3)
+}
+
+/// both phases liquid-like (density ratio above 0.3) without being a collapsed pair: a
+/// liquid-liquid equilibrium. A hydrocarbon pair for which one of the two solves returns
+/// such a solution demixes at that temperature in the model and is outside the quantifier
+/// ("without liquid-liquid demixing").
+pub fn lle_like(a: &PhaseEquilibrium<Model, 2>) -> bool {
+    let (r1, r2) = (a.vapor().density.to_reduced(), a.liquid().density.to_reduced());
+    !near_trivial(a) && r1.min(r2) / r1.max(r2) > 0.3
 }
 
 pub fn pe_json(a: &PhaseEquilibrium<Model, 2>) -> Value {
@@ -152,6 +163,10 @@ fn mixtures(m: &mut Monitor, cfg: &Config) {
         let info = json!({"system": sys, "T": t, "x1": x1, "pressure guess factor": f, "vapour guess": yg.as_ref().map(|y| y.to_vec())});
         match PhaseEquilibrium::bubble_point(&pr.eos, temp, &x, Some(pb * f), yg.as_ref(), Default::default()) {
             Ok(b1) if b1.vapor().pressure(Contributions::Total).to_reduced() > 1e-9 => {
+                if lle_like(&b1) != lle_like(&b0) {
+                    m.skip("bubble", "one solve returned a liquid-liquid equilibrium: the pair demixes here (outside the quantifier)");
+                    return;
+                }
                 let sig = if near_trivial(&b1) != near_trivial(&b0) { "near-critical collapse|bubble guided vs unguided" } else { "pcsaft-hc|bubble guided" };
                 m.check("bubble:guided equals unguided", sig, case, pe_dev(&b1, &b0), TOL, || json!({"info": info, "guided": pe_json(&b1), "unguided": pe_json(&b0)}));
             }
@@ -264,6 +279,10 @@ fn diagrams(m: &mut Monitor, cfg: &Config) {
                 }
                 if let Ok(r) = PhaseEquilibrium::bubble_point(&pr.eos, temp, x, None, None, Default::default()) {
                     if r.vapor().pressure(Contributions::Total).to_reduced() > 1e-9 {
+                        if lle_like(&r) != lle_like(s) {
+                            m.skip("diagram:binary_vle", "one solve returned a liquid-liquid equilibrium: the pair demixes here (outside the quantifier)");
+                            continue;
+                        }
                         let sig = if near_trivial(&r) != near_trivial(s) { "near-critical collapse|binary_vle vs stand-alone" } else { "pcsaft-hc|diagram binary" };
                         m.check("diagram:binary_vle point equals stand-alone bubble point", sig, case + k as u64, pe_dev(s, &r), TOL, || json!({"info": info, "diagram": pe_json(s), "stand-alone": pe_json(&r)}));
                     }
@@ -282,6 +301,18 @@ fn diagrams(m: &mut Monitor, cfg: &Config) {
                 }
                 if let Ok(r) = PhaseEquilibrium::bubble_point(&pr.eos, s.liquid().temperature, &x, None, None, Default::default()) {
                     if r.vapor().pressure(Contributions::Total).to_reduced() > 1e-9 {
+                        // between the mixture critical temperature and the cricondentherm a composition has two
+                        // saturation pressures; a stand-alone solve that lands on the other one (the specified
+                        // phase is the lighter phase there) solved a different, equally valid problem
+                        if lle_like(&r) != lle_like(s) {
+                            m.skip("diagram:bubble line", "one solve returned a liquid-liquid equilibrium: the pair demixes here (outside the quantifier)");
+                            continue;
+                        }
+                        let dense_spec = |pe: &PhaseEquilibrium<Model, 2>| pe.liquid().density > pe.vapor().density;
+                        if dense_spec(&r) != dense_spec(s) {
+                            m.skip("diagram:bubble line", "stand-alone solve on the other saturation branch (retrograde region)");
+                            continue;
+                        }
                         let sig = if near_trivial(&r) != near_trivial(s) { "near-critical collapse|bubble line vs stand-alone" } else { "pcsaft-hc|bubble line" };
                         m.check("diagram:bubble line point equals stand-alone bubble point", sig, case + 100 + k as u64, pe_dev(s, &r), TOL, || json!({"info": info, "x1": x1, "line": pe_json(s), "stand-alone": pe_json(&r)}));
                     }
@@ -343,6 +374,17 @@ fn constructors(m: &mut Monitor, cfg: &Config) {
         };
         let c = Contributions::Total;
         if !(s0.pressure(c).to_reduced() > 0.0 && s0.dp_dv(c).to_reduced() < 0.0) {
+            return;
+        }
+        // the inverse problems are unique only if p(rho) is monotonic along the isotherm (a mixture
+        // below the critical temperature of its heavier component has several density roots)
+        let rmax = max_density(&mc.eos, &ss.x);
+        let monotonic = (0..80).all(|k| {
+            let rho = rmax * 1e-6f64.powf(1.0 - k as f64 / 79.0) * 0.95;
+            State::new_nvt(&eos, ss.temperature(), Volume::from_reduced(ss.ntot / rho), &ss.moles()).map_or(false, |s| s.dp_dv(c).to_reduced() < 0.0)
+        });
+        if !monotonic {
+            m.skip("constructor", "isotherm not monotonic: several density roots");
             return;
         }
         let n_ = ss.moles();
